@@ -141,7 +141,8 @@ def _match_one(val, m):
 
 def classify(pid, cls, findings):
     for f in findings:
-        if f["property"] != pid or f.get("status") != "open":
+        props = f["property"] if isinstance(f["property"], list) else [f["property"]]
+        if pid not in props or f.get("status") != "open":
             continue
         if all(_match_one(cls.get(k), m) for k, m in f["match"].items()):
             return f
@@ -373,3 +374,109 @@ def run_e1(exe, mode, tier, slices=NCPU, timeout=3600):
     if m["machinery_errors"]:
         raise Machinery("; ".join(m["machinery_errors"][:5]))
     return m
+
+
+# ---- E2: generated programs through rustc ----------------------------------------------------------
+
+E2ROOT = os.path.join(BUILD, "e2")
+
+
+def gen_corpus(corpus, tier, n_shards=NCPU, features=("serde-json-impl",), exclude=()):
+    """(Re)generate the shard crates of a corpus; files whose content did not change keep their mtime."""
+    sys.path.insert(0, os.path.join(VERIF, "gen"))
+    import importlib
+    import e2core
+    mod = importlib.import_module("corpus_" + corpus)
+    cases = mod.build(tier)
+    name = f"{corpus}{tier[0]}"
+    files, crates = e2core.corpus_files(name, cases, n_shards, repo=REPO, verif=VERIF, features=features, exclude=exclude)
+    e2core.sync_tree(os.path.join(E2ROOT, name), files)
+    # root manifest lists every corpus directory present
+    members = []
+    for d in sorted(os.listdir(E2ROOT)):
+        if os.path.isdir(os.path.join(E2ROOT, d)) and d not in (".cargo",):
+            for s in sorted(os.listdir(os.path.join(E2ROOT, d))):
+                if os.path.isdir(os.path.join(E2ROOT, d, s)):
+                    members.append(f"{d}/{s}")
+    for rel, text in (("Cargo.toml", e2core.root_manifest(members)), (".cargo/config.toml", "[net]\noffline = true\n")):
+        pth = os.path.join(E2ROOT, rel)
+        os.makedirs(os.path.dirname(pth), exist_ok=True)
+        if not os.path.exists(pth) or open(pth).read() != text:
+            with open(pth, "w") as f:
+                f.write(text)
+    ensure_lock(E2ROOT)
+    return name, crates, cases
+
+
+def build_shards(crates):
+    """Build shard crates. Returns (binaries, failing: {case_id: first error message})."""
+    cmd = ["cargo", "build", "--offline", "--message-format=json"]
+    for c in crates:
+        cmd += ["-p", c]
+    p = sh(cmd, cwd=E2ROOT, env=env_for_cargo("e2t"), check=False, timeout=3600)
+    bins = {}
+    failing = {}
+    other_errors = []
+    for line in p.stdout.splitlines():
+        try:
+            j = json.loads(line)
+        except Exception:
+            continue
+        if j.get("reason") == "compiler-artifact" and j.get("executable"):
+            bins[j["target"]["name"]] = j["executable"]
+        if j.get("reason") == "compiler-message" and j["message"].get("level") == "error":
+            msg = j["message"]
+            files = set()
+
+            def walk(sp):
+                if sp.get("file_name", "").find("/cases/c") >= 0:
+                    files.add(os.path.basename(sp["file_name"])[:-3])
+                if sp.get("expansion"):
+                    walk(sp["expansion"]["span"])
+            for sp in msg.get("spans", []):
+                walk(sp)
+            for ch in msg.get("children", []):
+                for sp in ch.get("spans", []):
+                    walk(sp)
+            if files:
+                for f in files:
+                    failing.setdefault(f, msg.get("rendered", msg.get("message", ""))[:1500])
+            else:
+                other_errors.append(msg.get("rendered", msg.get("message", ""))[:1500])
+    if p.returncode != 0 and not failing:
+        raise Machinery("building generated shards failed without an error attributable to a case:\n"
+                        + "\n".join(other_errors)[-4000:] + p.stderr[-3000:])
+    return bins, failing
+
+
+def run_shards(bins, crates, prop, slices_per_shard=1, timeout=3600):
+    def one(job):
+        c, i = job
+        a = [bins[c], "--prop", prop, "--slice", f"{i}/{slices_per_shard}"]
+        try:
+            p = subprocess.run(a, stdout=subprocess.PIPE, stderr=subprocess.PIPE, text=True, timeout=timeout, cwd="/")
+        except subprocess.TimeoutExpired:
+            raise Machinery(f"timeout: {' '.join(a)}")
+        if p.returncode != 0 or not p.stdout.strip():
+            raise Machinery(f"shard crashed ({p.returncode}): {' '.join(a)}\n{p.stderr[-3000:]}")
+        return json.loads(p.stdout.strip().splitlines()[-1])
+    jobs = [(c, i) for c in crates for i in range(slices_per_shard)]
+    with ThreadPoolExecutor(max_workers=NCPU) as ex:
+        reports = list(ex.map(one, jobs))
+    m = merge_reports(reports)
+    if m["machinery_errors"]:
+        raise Machinery("oracle could not decide (unknown construct): " + "; ".join(m["machinery_errors"][:5]))
+    return m
+
+
+def e2_build(corpus, tier, features=("serde-json-impl",), max_rounds=3):
+    """Generate + build a corpus, excluding cases that do not compile (returned separately)."""
+    exclude = {}
+    for _ in range(max_rounds):
+        name, crates, cases = gen_corpus(corpus, tier, features=features, exclude=set(exclude))
+        bins, failing = build_shards(crates)
+        if not failing:
+            return name, crates, bins, cases, exclude
+        exclude.update(failing)
+    raise Machinery(f"shards of corpus {corpus} still fail to build after excluding {len(exclude)} cases: "
+                    + "; ".join(f"{k}: {v[:200]}" for k, v in list(exclude.items())[:3]))
